@@ -1,14 +1,17 @@
 #!/bin/bash
 # apply each behaviour-preserving rewrite of /verif/harmless to /repo, run the checks it can affect, undo.
 # every check must stay silent (exit 0): a VIOLATION here is a false alarm of the machinery.
+# usage: tools/harmless.sh [patch names without .diff ...]
 cd /verif
-declare -A REL=( [1]="C05 C11 C01" [2]="C08" [3]="C02 C05 C07 C10 C01" [4]="C10 C06" [5]="C17 C11" [6]="C05 C11" [7]="C13 C06" [8]="C03 C04 C05 C01" )
-for k in ${1:-1 2 3 4 5 6 7 8}; do
+declare -A REL=( [hr-1]="C05 C11 C01" [hr-2]="C08" [hr-3]="C02 C05 C07 C10 C01" [hr-4]="C10 C06" [hr-5]="C17 C11" [hr-6]="C05 C11" [hr-7]="C13 C06" [hr-8]="C03 C04 C05 C01"
+  [hr2-1]="C07 C01" [hr2-2]="C08" [hr2-3]="C15" [hr2-4]="C09" [hr2-5]="C12" [hr2-6]="C18" [hr2-7]="C17" [hr2-8]="C02 C07 C01" [hr2-9]="C14 C06" [hr2-10]="C05 C11" )
+names=${@:-hr-1 hr-2 hr-3 hr-4 hr-5 hr-6 hr-7 hr-8 hr2-1 hr2-2 hr2-3 hr2-4 hr2-5 hr2-6 hr2-7 hr2-8 hr2-9 hr2-10}
+for k in $names; do
   [ -n "$(git -C /repo status --porcelain)" ] && { echo "repo not clean"; exit 2; }
-  git -C /repo apply /verif/harmless/hr-$k.diff || { echo "hr-$k: patch does not apply"; continue; }
+  git -C /repo apply /verif/harmless/$k.diff || { echo "$k: patch does not apply"; continue; }
   for p in ${REL[$k]}; do
     timeout 1200 ./check $p > /tmp/harmless-$k-$p.log 2>&1; rc=$?
-    echo "hr-$k $p rc=$rc $(grep -m1 '^VIOLATION' /tmp/harmless-$k-$p.log)"
+    echo "$k $p rc=$rc $(grep -m1 '^VIOLATION' /tmp/harmless-$k-$p.log)"
   done
   git -C /repo checkout -- .
 done
